@@ -11,7 +11,7 @@ import (
 
 //verif:include ../dnsdata/rdb/zz_verif_model.go
 //verif:include ../db/zz_verif_world.go
-//verif:harness H13_robust property=C13 native=no quick=world=0,layout=2,edns=0,cache=0;world=1,layout=1,edns=1,cache=0;world=1,layout=2,edns=0,cache=0;world=2,layout=0,edns=0,cache=0;world=3,layout=2,edns=1,cache=0;world=0,layout=2,edns=0,cache=1 thorough=world=0,layout=0,edns=2,cache=0;world=0,layout=1,edns=4,cache=0;world=1,layout=2,edns=3,cache=0;world=2,layout=1,edns=2,cache=0;world=2,layout=2,edns=1,cache=0;world=3,layout=0,edns=4,cache=0;world=0,layout=0,edns=1,cache=1
+//verif:harness H13_robust property=C13 native=no quick=world=0,layout=2,edns=0,cache=0;world=0,layout=1,edns=1,cache=0;world=1,layout=2,edns=0,cache=0;world=2,layout=0,edns=0,cache=0;world=3,layout=2,edns=1,cache=0;world=0,layout=2,edns=0,cache=1 thorough=world=1,layout=1,edns=1,cache=0;world=0,layout=0,edns=2,cache=0;world=0,layout=1,edns=4,cache=0;world=1,layout=2,edns=3,cache=0;world=2,layout=1,edns=2,cache=0;world=2,layout=2,edns=1,cache=0;world=3,layout=0,edns=4,cache=0;world=0,layout=0,edns=1,cache=1
 
 // verifWellFormed: what C13 demands of a written message.
 func verifWellFormed(q, resp *dns.Msg, tcp bool, tag string) {
@@ -72,13 +72,19 @@ func H13_robust() {
 	}
 	// "returns": names have at most four labels and the stores under sixty keys, so no loop of the
 	// handler or the readers needs anywhere near this many iterations
+	// the EDNS version as sent (coredns reuses the request's OPT record for some replies and
+	// resets its version, so it must be read before the call)
+	sentVersion, hasOPT := uint8(0), false
+	if o := q.IsEdns0(); o != nil {
+		sentVersion, hasOPT = o.Version(), true
+	}
 	nd.HangBound(5000)
 	_, _ = env.h.ServeDNSWithRCODE(context.Background(), w, q)
 	nd.HangBound(0)
 	nd.Assert(len(w.written)+w.raw <= 1, "at-most-one-reply")
 	if len(w.written) == 1 {
 		resp := w.written[0]
-		if o := q.IsEdns0(); o != nil && o.Version() != 0 {
+		if hasOPT && sentVersion != 0 {
 			nd.Assert(resp.Rcode == dns.RcodeBadVers, "unsupported-edns-version-gets-BADVERS")
 			// recorded finding, as narrow as what was observed: the BADVERS reply built by
 			// coredns' edns.Version has no question section (everything else about a reply to an
